@@ -45,6 +45,8 @@ def corpus_cfgs():
     # runs that STOP AT THE CAP with beta < 1 (their last payload is a finished run at a temperature below 1; resuming it adds nothing)
     out.append(dict(base, sample_kwargs=dict(adaptive=False, n_steps=10, max_n_steps=4)))
     out.append(dict(base, s=0.05, sample_kwargs=dict(adaptive=True, min_step=0.01, max_n_steps=3)))
+    # a run that stops at its cap below temperature 1 AND enlarges its final population (finding F65)
+    out.append(dict(base, kind="minipcn_smc", s=0.05, sample_kwargs=dict(adaptive=True, min_step=0.01, max_n_steps=3, n_final_samples=16)))
     # the final enlargement with its own number of kernel steps (must survive an interruption and a resume)
     out.append(dict(base, kind="minipcn_smc", n_final_steps=3, sample_kwargs=dict(adaptive=True, n_final_samples=12)))
     return out
